@@ -49,6 +49,36 @@ def names_called(stmts) -> set[str]:
     return out
 
 
+def complete_updates_cache(ctx, rule, upd_name):
+    """In-memory backend: every path of set_trial_state_values on which a trial becomes COMPLETE passes the best-trial cache update after
+    the publication (shared by C12 R12.4 and C01 R01.17: get_best_trial has to agree with the base implementation the journal uses and with
+    the RDB query)."""
+    p = ctx.program
+    im = p.cls(INMEM)
+    f = im.methods["set_trial_state_values"]
+    g = CFG(f.node, name=f.qualname)
+    upd = [n for n in g.stmt_nodes() for c in n.calls() if self_attr(c.func) == upd_name]
+    pub = [n for n in g.stmt_nodes() for c in n.calls() if self_attr(c.func) == "_set_trial"]
+    cur = {norm(x) for x in own_nodes(f.node) if isinstance(x, ast.Attribute) and x.attr == "state" and norm(x.value) not in ("self",) and not norm(x.value).endswith("TrialState")}
+    bad = None
+    for curst in ("RUNNING", "WAITING"):
+        env = {"state": "COMPLETE"}
+        for c in cur:
+            env[c] = curst
+        nodes, edges = explore(g, env, [], return_edges=True)
+        ok_edge = lambda a, k, b, edges=edges: (a, k, b) in edges and NORMAL(a, k, b)  # noqa: E731
+        r = g.reachable([g.entry], avoid_nodes=upd, edge_ok=ok_edge)
+        if g.exit in r:
+            bad = g.witness([g.exit], guards=upd, edge_ok=ok_edge)
+        # update happens after the publish
+        for u in upd:
+            if u in nodes and not g.dominated_by(u, pub):
+                bad = "update before publish"
+    ctx.check(bad is None and bool(upd), rule, f.short, "complete-updates-cache",
+              message="set_trial_state_values(COMPLETE) can return without _update_cache after the trial was published: best_trial goes stale",
+              how="explored with state=COMPLETE: every normal path to exit passes _update_cache, dominated by _set_trial", witness=bad)
+
+
 def run(ctx):
     p: Program = ctx.program
     ctx.explanation = (
@@ -270,28 +300,7 @@ def run(ctx):
 
     # ------------------------------------------------------------ R12.4 cache sees every completion
     ctx.rule("R12.4", "in-memory: every path on which a trial can become COMPLETE passes _update_cache after publication; errors mirror the base")
-    f = im.methods["set_trial_state_values"]
-    g = CFG(f.node, name=f.qualname)
-    upd = [n for n in g.stmt_nodes() for c in n.calls() if self_attr(c.func) == UPD]
-    pub = [n for n in g.stmt_nodes() for c in n.calls() if self_attr(c.func) == "_set_trial"]
-    cur = {norm(x) for x in own_nodes(f.node) if isinstance(x, ast.Attribute) and x.attr == "state" and norm(x.value) not in ("self",) and not norm(x.value).endswith("TrialState")}
-    bad = None
-    for curst in ("RUNNING", "WAITING"):
-        env = {"state": "COMPLETE"}
-        for c in cur:
-            env[c] = curst
-        nodes, edges = explore(g, env, [], return_edges=True)
-        ok_edge = lambda a, k, b, edges=edges: (a, k, b) in edges and NORMAL(a, k, b)  # noqa: E731
-        r = g.reachable([g.entry], avoid_nodes=upd, edge_ok=ok_edge)
-        if g.exit in r:
-            bad = g.witness([g.exit], guards=upd, edge_ok=ok_edge)
-        # update happens after the publish
-        for u in upd:
-            if u in nodes and not g.dominated_by(u, pub):
-                bad = "update before publish"
-    ctx.check(bad is None and bool(upd), "R12.4", f.short, "complete-updates-cache",
-              message="set_trial_state_values(COMPLETE) can return without _update_cache after the trial was published: best_trial goes stale",
-              how="explored with state=COMPLETE: every normal path to exit passes _update_cache, dominated by _set_trial", witness=bad)
+    complete_updates_cache(ctx, "R12.4", UPD)
     # the cache maintainer reads the current best, compares and writes: it must run in the same critical
     # section that published the trial, otherwise two finishing threads interleave and the better one's
     # update is overwritten by the other's stale comparison
